@@ -38,11 +38,11 @@ type NCase struct {
 
 type NRun struct {
 	lastNVBlocks map[uint64]*fakes.Block // blocks proven by the proofs inside the last valid NEW_VIEW that was built
-	W         *World
-	Me        *Node
-	Accepted  []bool // per cand step: did it have an effect
-	Mutated   []int  // per cand step: number of mutations applied
-	CandKinds []string
+	W            *World
+	Me           *Node
+	Accepted     []bool // per cand step: did it have an effect
+	Mutated      []int  // per cand step: number of mutations applied
+	CandKinds    []string
 }
 
 // NewNWorld builds a world in which only Me is a real node.
